@@ -20,6 +20,7 @@ import EPV.Gen.EosStiff_P
 import EPV.Gen.EosNobleAbel_P
 import EPV.Gen.EosCS_P
 import EPV.Tactics
+import EPV.Lemmas.Bridge.EosTac
 
 set_option linter.all false
 
@@ -35,14 +36,19 @@ theorem bbnoh_ideal_eos (p : BBNohIdeal.P) (r t : ℝ) (h : BBNohIdeal.outcome p
     (hadm : PressureFreeOrPlanar p.p0 p.symmetry) :
     BBNohIdeal.pressure p r t
       = EosIdeal_P.Pfun { gamma := p.gamma } (BBNohIdeal.density p r t) (BBNohIdeal.specific_internal_energy p r t) := by
-  simp only [epv_tree] at h ⊢
-  split_ifs at h ⊢ with h0 h1 h2 h3 h3 <;> first
+  simp only [BBNohIdeal.pressure, BBNohIdeal.density, BBNohIdeal.specific_internal_energy, BBNohIdeal.outcome] at h ⊢
+  split_ifs at h ⊢ <;> first
     | epv_absurd
-    | (simp only [epv_cond] at *
-       have hγ : p.gamma - 1 ≠ 0 := sub_ne_zero.mpr ‹_›
-       rcases hadm with ha | ha <;>
-         simp only [epv_leaf, epv_tree, epv_cond, ha, Real.rpow_zero, *, if_false, zero_div, mul_zero, zero_mul, mul_one] <;>
-         (try field_simp) <;> (try ring))
+    | (simp only [EosIdeal_P.Pfun]
+       split_ifs <;> first
+         | epv_absurd
+         | (simp only [epv_cond] at *
+            first
+              | contradiction
+              | (have hγ : p.gamma - 1 ≠ 0 := sub_ne_zero.mpr ‹_›
+                 rcases hadm with ha | ha <;>
+                   simp only [epv_leaf, ha, Real.rpow_zero, mul_one, one_mul, zero_div, mul_zero, zero_mul] at * <;>
+                   epv_eos_field)))
 
 /-- Noble–Abel gas -/
 theorem bbnoh_nobleAbel_eos (p : BBNohNobleAbel.P) (r t : ℝ) (h : BBNohNobleAbel.outcome p r t = .ok)
@@ -62,9 +68,8 @@ theorem bbnoh_nobleAbel_eos (p : BBNohNobleAbel.P) (r t : ℝ) (h : BBNohNobleAb
          | epv_absurd
          | (simp only [epv_cond] at *
             rcases hadm with ha | ha <;>
-              simp only [epv_leaf, ha, Real.rpow_zero, mul_one, zero_div, mul_zero, zero_mul] at * <;>
-              (try generalize p.b * p.rho0 = η at *) <;>
-              (try field_simp) <;> (try ring)))
+              simp only [epv_leaf, ha, Real.rpow_zero, mul_one, one_mul, zero_div, mul_zero, zero_mul] at * <;>
+              epv_eos_field))
 
 /-- Carnahan–Starling gas -/
 theorem bbnoh_cs_eos (p : BBNohCS.P) (r t : ℝ) (h : BBNohCS.outcome p r t = .ok)
@@ -83,10 +88,8 @@ theorem bbnoh_cs_eos (p : BBNohCS.P) (r t : ℝ) (h : BBNohCS.outcome p r t = .o
          | epv_absurd
          | (simp only [epv_cond] at *
             rcases hadm with ha | ha <;>
-              simp only [epv_leaf, ha, Real.rpow_zero, mul_one, zero_div, mul_zero, zero_mul] at * <;>
-              (try generalize p.b * p.rho0 = η at *) <;>
-              (try (have h1 : 1 - η ≠ 0 := sub_ne_zero.mpr (Ne.symm ‹¬η = 1›))) <;>
-              (try field_simp) <;> (try ring)))
+              simp only [epv_leaf, ha, Real.rpow_zero, mul_one, one_mul, zero_div, mul_zero, zero_mul] at * <;>
+              epv_eos_field))
 
 /-- stiffened gas, shocked side (every symmetry) and unshocked side in PLANAR symmetry — `_partial`:
 for m ≠ 0 the unshocked state returned by the solver does not satisfy the stiffened-gas EOS
@@ -103,8 +106,9 @@ theorem bbnoh_stiff_eos_partial (p : BBNohStiff.P) (r t : ℝ) (h : BBNohStiff.o
     | (simp only [epv_cond] at * <;> simp only [EosStiff_P.Pfun, epv_leaf] <;>
        rcases hside with ha | ha <;> first
          | (exact absurd ha ‹_›)
-         | (simp only [ha, Real.rpow_zero, mul_one] at * <;> (try field_simp) <;> (try ring))
-         | ((try field_simp) <;> (try ring)))
+         | (exact absurd (by linarith) ‹¬ _›)
+         | (simp only [ha, Real.rpow_zero, mul_one, one_mul] at * <;> epv_eos_field)
+         | epv_eos_field)
 
 /-- non-vacuity: the default problem (ρ₀ = 1, u₀ = -1, p0 = 0, spherical) with the ideal-gas Noh state
 (ρ, e, D) = (64, 1/2, 1/3) returns numbers at r = 1/10, t = 1 (shocked) and r = 1, t = 1 (unshocked) -/
